@@ -198,7 +198,7 @@ def make_scenarios(ck, behs, quick, rng):
             if nostart > 4:
                 continue
         picked.append((steps, info, outcome))
-    scns, rr, nw = [], {}, {}
+    scns, rr, nw, nn = [], {}, {}, {}
     for i, (steps, info, outcome) in enumerate(picked):
         end = steps[-1]
         has_sig = end[0] == "G"
@@ -208,7 +208,12 @@ def make_scenarios(ck, behs, quick, rng):
              "soft": 1 if rng.random() < 0.15 else 0,
              "sleep": rng.choice([-1, -1, -1, 0, 2000, 2000]),
              "sh": 1 if has_sig or rng.random() < 0.5 else 0,
-             "named": 1 if rng.random() < 0.3 else 0, "wait": 1}
+             "named": 1 if rng.random() < 0.3 else 0, "wait": 1, "q": 0}
+        if has_sig:
+            # SignalHandlerOptions::logger: none / the logger that exists / a name no logger has (the handler must
+            # fall back to the first valid logger) - in turn
+            nn["sig"] = nn.get("sig", 0) + 1
+            a["named"] = nn["sig"] % 3
         # wait_for_queues_to_empty_before_exit = false: the stop/exit clause promises nothing then, the signal clause
         # still holds. Every second SIGINT/SIGTERM scenario, every third fatal one and every fifth stop/exit one
         # run that way; the signal ones with a backend that is kept behind (hold gate, else slow gate / soft limit 1
@@ -223,6 +228,18 @@ def make_scenarios(ck, behs, quick, rng):
                 a["gate"] = [1, 1, 2, 1][j % 4]
                 a["soft"] = 1 if j % 4 == 3 else a["soft"]
                 a["sleep"] = 2000 if j % 4 == 2 else a["sleep"]
+        if not has_sig and a["wait"] == 1 and _burst(steps):
+            # queue growth / shrink before the stop: every eligible scenario (some thread logs >= 2 statements that a
+            # later stop/exit of a running backend must drain) takes one of the three exercises in turn, turn by
+            # turn and with the backend held (hold gate) or asleep (20 ms), so that the drain is left to _exit()
+            nn["q"] = nn.get("q", 0) + 1
+            a["q"] = 1 + nn["q"] % 3
+            a["sync"] = "turn"
+            a["soft"] = 0
+            if nn["q"] % 4 == 3 and a["q"] != 3:
+                a["gate"], a["sleep"] = 0, 20000
+            else:
+                a["gate"], a["sleep"] = 1, -1
         toks = []
         for op, t, x in steps:
             if op in "LSPF":
@@ -248,10 +265,26 @@ def make_scenarios(ck, behs, quick, rng):
     return scns
 
 
+def _burst(steps):
+    """some thread logs >= 2 statements between a stop (or the beginning) and the next stop/exit of a running backend"""
+    up, cnt = False, {}
+    for op, t, x in steps:
+        if op == "L":
+            cnt[t] = cnt.get(t, 0) + 1
+        elif op == "S":
+            up = True
+        elif op in "PXR":
+            if up and any(v >= 2 for v in cnt.values()):
+                return True
+            if op == "P":
+                up, cnt = False, {}
+    return False
+
+
 def scn_line(s, sid=None):
     a = s["attrs"]
-    return "%s %s %d %s %d %d %d %d %d %s" % (sid or s["id"], a["clock"], a["gate"], a["sync"], a["soft"], a["sleep"],
-                                              a["sh"], a["named"], a["wait"], " ".join(s["steps"]))
+    return "%s %s %d %s %d %d %d %d %d %d %s" % (sid or s["id"], a["clock"], a["gate"], a["sync"], a["soft"], a["sleep"],
+                                                 a["sh"], a["named"], a["wait"], a["q"], " ".join(s["steps"]))
 
 
 # ------------------------------------------------------------------------------------------- 3. real executions
@@ -279,7 +312,7 @@ def run_scenarios(exe, lines, timeout=900):
         vlib.rm(d)
 
 
-_re_stmt = re.compile(r"^s (\d) (\d+)$")
+_re_stmt = re.compile(r"^s (\d) (\d+)(?: p+)?$")
 _re_notice = re.compile(r"^Received signal: .* \(signum: (\d+)\)$")
 _re_crit = re.compile(r"^Program terminated unexpectedly due to signal: .* \(signum: (\d+)\)$")
 
@@ -369,6 +402,7 @@ def corrupted(pairs):
     import copy
     out = []
     isn = lambda l: norm_lines([l])[0]["k"] == "n"
+    pairs = [(s, o) for s, o in pairs if s["attrs"].get("q") != 1]     # padded lines: not used for the self-test
     def first(pred):
         for s, o in pairs:
             if pred(s, o):
@@ -470,6 +504,12 @@ def signature(s, o, whys):
     if not s["attrs"].get("wait", 1):
         a2 = dict(s["attrs"], wait=1)
         return signature(dict(s, attrs=a2), o, whys) + ":wait=false"
+    if s["attrs"].get("named") == 2 and s["steps"][-1][0] == "G":
+        a2 = dict(s["attrs"], named=0)
+        return signature(dict(s, attrs=a2), o, whys) + ":named-logger-absent"
+    if s["attrs"].get("q") and op in ("stopret", "end"):
+        a2 = dict(s["attrs"], q=0)
+        return signature(dict(s, attrs=a2), o, whys) + ":queue-" + ("grown" if s["attrs"]["q"] == 1 else "shrunk")
     if op == "start":
         n = sum(1 for e in o["events"] if e["e"] == "StartRet")
         return "start:not-running:%s" % ("first" if n <= 1 else "restart")
@@ -561,6 +601,10 @@ def run(ck):
         mix[k] = mix.get(k, 0) + 1
         for a in ("clock", "gate", "sync"):
             mix[f"{a}={s['attrs'][a]}"] = mix.get(f"{a}={s['attrs'][a]}", 0) + 1
+        if e[0] == "G":
+            mix[f"named={s['attrs']['named']}"] = mix.get(f"named={s['attrs']['named']}", 0) + 1
+        if s["attrs"]["q"]:
+            mix[f"queue={s['attrs']['q']}"] = mix.get(f"queue={s['attrs']['q']}", 0) + 1
         if not s["attrs"]["wait"]:
             kd = "plain" if e[0] != "G" else "graceful" if SIGNAME[int(e.split(":")[1])] in GRACEFUL else "fatal"
             mix[f"nowait:{kd}"] = mix.get(f"nowait:{kd}", 0) + 1
@@ -588,7 +632,8 @@ def run(ck):
         if not mix.get(k):
             raise vlib.Infra(f"vacuity: no scenario of kind {k} in this run")
     for k, n in (("nowait:graceful", 8), ("nowait:graceful:backend-held", 4), ("nowait:fatal", 6),
-                 ("nowait:fatal:backend-held", 3), ("nowait:plain", 4)):
+                 ("nowait:fatal:backend-held", 3), ("nowait:plain", 4), ("named=0", 10), ("named=1", 10), ("named=2", 10),
+                 ("queue=1", 4), ("queue=2", 4), ("queue=3", 4)):
         if mix.get(k, 0) < n:
             raise vlib.Infra(f"vacuity: only {mix.get(k, 0)} scenarios of kind {k} (want >= {n})")
     if len(scns) < (150 if quick else 1500):
@@ -600,6 +645,8 @@ def run(ck):
     for s, o in pairs:
         if o.get("setup_failed"):
             raise vlib.Infra(f"child setup failed for {scn_line(s)}")
+        if any(e["e"] == "StopRet" and e["lines"] is None for e in o["events"]):
+            raise vlib.Infra(f"file snapshot did not fit the child's event memory: {scn_line(s)}")
         ev = o["events"]
         req = [i for i, e in enumerate(ev) if e["e"] in ("StopCall", "EndCall")]
         nontriv = any(e["e"] == "StartRet" for e in ev) and bool(req) and \
@@ -672,7 +719,7 @@ def replay(ck, path):
     j = json.loads(open(path).read())["replay"]
     exe = build_harness()
     f = j["scenario"].split()
-    s = {"id": "replay", "steps": f[9:], "attrs": {"wait": int(f[8])}}
+    s = {"id": "replay", "steps": f[10:], "attrs": {"wait": int(f[8]), "named": int(f[7]), "q": int(f[9])}}
     line = "replay " + " ".join(j["scenario"].split()[1:])
     obs = run_scenarios(exe, [line], timeout=120)
     o = obs["replay"]
